@@ -12,6 +12,7 @@ package main
 // of partition.go on the same entries.
 
 import (
+	"context"
 	"fmt"
 	"math"
 	"sort"
@@ -393,6 +394,33 @@ func runPartition(c *Ctx) {
 			rep := A.Index().BytesSize()
 			if rep < ref.bytes() || rep-ref.bytes() > uint64(len(ref.items))*100000 {
 				c.Violate("C02", "C02/reported-size", fmt.Sprintf("reported size %d vs data bytes %d for %d items", rep, ref.bytes(), len(ref.items)), c.History())
+			}
+			// ---- oracle C01 at the partition layer: a search sees the current vectors and metadata
+			if len(ref.items) > 0 {
+				q := vecs[(len(entries)*7)%len(vecs)]
+				k := 1 + len(entries)%5
+				hits, serr := A.Index().Search(context.Background(), q, uint(k))
+				if serr != nil || len(hits) == 0 {
+					c.Violate("C01", "C01/empty-result", fmt.Sprintf("partition search returned %d items (err %v) on %d stored items", len(hits), serr, len(ref.items)), c.History())
+				}
+				seen := map[int]bool{}
+				for i, x := range hits {
+					it, ok := ref.items[idn(x.Id)]
+					if !ok {
+						c.Violate("C01", "C01/returns-removed", fmt.Sprintf("partition search returned id %d which is not stored", idn(x.Id)), c.History())
+						continue
+					}
+					if mdString(index.Metadata(it.md)) != mdString(x.Metadata) {
+						c.Violate("C01", "C01/metadata", fmt.Sprintf("partition search returned id %d with metadata %s, current metadata is %s", idn(x.Id), mdString(x.Metadata), mdString(index.Metadata(it.md))), c.History())
+					}
+					if f32bits(sp.Distance(q, vecs[it.vec])) != f32bits(x.Score) {
+						c.Violate("C01", "C01/score", fmt.Sprintf("partition search returned id %d with a score that is not the distance to its current vector", idn(x.Id)), c.History())
+					}
+					if seen[idn(x.Id)] || (i > 0 && hits[i-1].Score > x.Score) || len(hits) > k {
+						c.Violate("C01", "C01/unsorted", "partition search result has a duplicate, is unsorted or longer than k", c.History())
+					}
+					seen[idn(x.Id)] = true
+				}
 			}
 			if o.kind == "upd" || o.kind == "bupd" {
 				for _, it := range o.items {
